@@ -72,8 +72,22 @@ func TestCheck(t *testing.T) {
 	}
 	h := &harness{run: run, top: top}
 
-	if p := os.Getenv("VERIF_REPLAY"); p != "" {
-		h.replay(p)
+	replayFile := os.Getenv("VERIF_REPLAY")
+	if replayFile != "" {
+		if a, err := filepath.Abs(replayFile); err == nil {
+			replayFile = a
+		}
+	}
+	// defence in depth: the working directory is moved five levels down into the scratch root, so that
+	// even an implementation resolving an entry name against the working directory stays in harness-owned space
+	if wd, err := os.Getwd(); err == nil {
+		deep := filepath.Join(top, "cwd", "1", "2", "3", "4", "5")
+		if os.MkdirAll(deep, 0o755) == nil && os.Chdir(deep) == nil {
+			defer os.Chdir(wd)
+		}
+	}
+	if replayFile != "" {
+		h.replay(replayFile)
 		return
 	}
 	maxSize := run.Pick(64<<10, 1<<20)
@@ -127,7 +141,7 @@ var (
 	spaceNames  = []string{"my file", " lead", "trail ", "a  b", "  ", " . ", "new folder (2)"}
 	dotNames    = []string{"a.b.c", "trail.", "..x", "x..y", "...", "a..", ". .", "..a..", "....", "v1.2.3"}
 	hiddenNames = []string{".hidden", ".config", ".a b", ".…", "..rc", ".git", ".x.y"}
-	uniNames    = []string{"файл", "日本語テキスト", "café", "café", "\U0001F600 emoji", "straße", "שלום", "नमस्ते", "a‍b", "Ω", "ǅ", "ＦＵＬＬ", "．．", "ı", "İ"}
+	uniNames    = []string{"файл", "日本語テキスト", "caf\u00e9", "cafe\u0301", "\U0001F600 emoji", "straße", "שלום", "नमस्ते", "a\u200db", "Ω", "ǅ", "ＦＵＬＬ", "．．", "ı", "İ"}
 	punctNames  = []string{"a#b", "100%", "a&b", "(1)", "it's", `say "hi"`, "a*b", "what?", "[x]", "~tmp", "a+b", "a,b", "a;b", "a=b", "@home", "!bang", "$var", "{x}", "a:b", "a|b", "<x>", "-rf", "--", "a`b", "%2e%2e", "a^b", "..%2f"}
 	extensions  = []string{".txt", ".txt", ".txt", ".txt", ".TXT", ".txt.bak", "txt", ".bin", ".bin", "", "", "", "", "", ""}
 )
@@ -531,7 +545,6 @@ func runCombo(c *rtCase, src string, srcSums map[string]string, work string, n i
 }
 
 func (h *harness) roundTrips(trees, maxSize int) {
-	run := h.run
 	type job struct{ idx int }
 	jobs := make(chan job)
 	var wg sync.WaitGroup
@@ -625,7 +638,7 @@ func (h *harness) oneTree(idx, maxSize int) {
 					if nsel > 0 {
 						run.DistinctStr(fmt.Sprintf("rt|%s|%v|%v|%v|d%d|n%s|s%s|m%b", filter, rec, slash, destExists, depth, bucket(len(ts.Files)), bucket(nsel), mask))
 					}
-					if run.SampleN() < 2 && nsel >= 3 && filter != "nil" {
+					if run.SampleN() < 2 && nsel >= 3 && filter == "ext" && !rec && slash && !destExists {
 						var names []string
 						for i, f := range ts.Files {
 							if i < 6 {
